@@ -137,15 +137,36 @@ Proof.
 Qed.
 
 (* ---------- resolveConflict ---------- *)
-Lemma resolve_honest_wins_eq hard v env raws hint cps p tc tfilt bans res flag :
+Lemma msg_of_In q hs m : msg_of q hs = Some m -> In (q, m) hs.
+Proof.
+  unfold msg_of. destruct (List.find _ hs) as [[q' m']|] eqn:E; [|done].
+  intros [= <-]. apply find_some in E as [Hin Hq]. cbn in Hq. apply Z.eqb_eq in Hq. by subst q'.
+Qed.
+
+Lemma msg_of_Some q hs : In q (List.map fst hs) -> exists m, msg_of q hs = Some m.
+Proof.
+  intros (c & Ec & Hc)%in_map_iff. unfold msg_of.
+  destruct (List.find (fun c0 : Z * cfmsg => fst c0 =? q) hs) as [c'|] eqn:E; [eauto|].
+  exfalso. pose proof (find_none _ _ E c Hc) as Hn. cbn in Hn. rewrite Ec, Z.eqb_refl in Hn. done.
+Qed.
+
+(* the hypotheses about the honest peer p: at every start height the answers
+   contain its (true) answer tm, every index asked is in the class, and its
+   checkpoint list tc does not contradict the cfheaders it serves *)
+Definition honest_serves (H : Z -> Z -> Z) (v : cview) (env : denv) (raws : list rawresp)
+           (p : Z) (tc : list Z) (tfilt : Z -> Z) : Prop :=
+  forall startH, exists tm,
+    honest_in tm p (fst (get_headers v startH raws)) /\
+    (forall i : nat, (i < zn (snd (get_headers v startH raws)))%nat ->
+                     good_idx env tfilt tm startH p (Z.of_nat i)) /\
+    (forall d, startH = u32 (d * INTERVAL) -> cp_contradicts H d tc tm = false).
+
+Lemma resolve_honest_wins_eq H hard v env raws hint cps p tc tfilt bans res :
   In (p, tc) cps -> (forall l, In (p, l) cps -> l = tc) ->
   peer_hard_bad hard tc = false ->
   (forall q l, In (q, l) cps -> (length l <= length tc)%nat) ->
-  (forall startH, exists tm,
-      honest_in tm p (fst (get_headers v startH raws)) /\
-      forall i : nat, (i < zn (snd (get_headers v startH raws)))%nat ->
-                      good_idx env tfilt tm startH p (Z.of_nat i)) ->
-  resolve_conflict hard v env raws hint cps = (bans, res, flag) ->
+  honest_serves H v env raws p tc tfilt ->
+  resolve_conflict H hard v env raws hint cps = (bans, res) ->
   ~ In p bans /\
   (forall l, res = Some l -> forall (i : nat) x y, l !! i = Some x -> tc !! i = Some y -> x = y) /\
   (forall l, res = Some l -> forall q lq (i : nat) x y,
@@ -169,7 +190,7 @@ Proof.
   rewrite (match_ne cps1) by (eapply In_ne; exact Hp1).
   destruct (check_sanity cps1 v) as [|d|] eqn:Es.
   - (* all agree *)
-    intros [= <- <- <-]. split; [done|]. split.
+    intros [= <- <-]. split; [done|]. split.
     + intros l Hl. destruct (choose hint cps1) as [[c lc]|] eqn:Ec; [|done].
       cbn in Hl. injection Hl as <-. apply choose_In in Ec.
       intros i x y Hx Hy. exact (check_sanity_all cps1 v Es c lc p tc i x y Ec Hp1 Hx Hy).
@@ -186,10 +207,11 @@ Proof.
       unfold zlen. lia. }
     rewrite (match_ne cps2) by (eapply In_ne; exact Hp2).
     set (startH := u32 (Z.of_nat j * INTERVAL)).
-    destruct (Hhon startH) as (tm & Hh & Hgood).
+    destruct (Hhon startH) as (tm & Hh & Hgood & Hcons).
+    specialize (Hcons (Z.of_nat j) eq_refl).
     destruct (get_headers v startH raws) as [hs n] eqn:Eg. cbn [fst snd] in Hh, Hgood.
     destruct (negb (all_eq (List.map (fun c : Z * cfmsg => m_prev (snd c)) hs))).
-    { intros [= <- <- <-]. split; [done|]. split; intros; discriminate. }
+    { intros [= <- <-]. split; [done|]. split; intros; discriminate. }
     unfold full_ix.
     destruct (settle_all env startH hs (seq 0 (zn n)) []) as [r bans1] eqn:Esa.
     assert (Hg : forall i : nat, In i (seq 0 (zn n)) -> good_idx env tfilt tm startH p (Z.of_nat i)).
@@ -197,11 +219,17 @@ Proof.
     destruct (settle_all_safe env tfilt tm startH p (seq 0 (zn n)) hs [] r bans1 Hg Hh (fun x => x) Esa)
       as (Hpb1 & _ & Hres).
     destruct r as [hs'|].
-    2:{ intros [= <- <- <-]. split; [rewrite in_app_iff; tauto|]. split; intros; discriminate. }
+    2:{ intros [= <- <-]. split; [rewrite in_app_iff; tauto|]. split; intros; discriminate. }
     destruct Hres as (Hsub & Hh' & _ & Hrem).
     set (cps3 := remove_peers bans1 cps2).
     set (silent := List.map fst (List.filter (fun c : Z * list Z => negb (mem (fst c) (List.map fst hs'))) cps3)).
     set (cps4 := remove_peers silent cps3).
+    set (cpliars := List.map fst (List.filter (fun c : Z * list Z =>
+                      match msg_of (fst c) hs' with
+                      | Some m => cp_contradicts H (Z.of_nat j) (snd c) m
+                      | None => false
+                      end) cps4)).
+    set (cps5 := remove_peers cpliars cps4).
     assert (Hp3 : In (p, tc) cps3).
     { apply remove_peers_In. split; [done|]. cbn. by apply mem_false. }
     assert (Hps : ~ In p silent).
@@ -210,15 +238,25 @@ Proof.
       apply Hb. apply in_map_iff. exists (p, tm). split; [done|]. apply Hh'. }
     assert (Hp4 : In (p, tc) cps4).
     { apply remove_peers_In. split; [done|]. cbn. by apply mem_false. }
-    assert (Hpall : ~ In p (bad0 ++ bans1 ++ silent)).
+    assert (Hpl : ~ In p cpliars).
+    { unfold cpliars. intros Hin. apply in_map_iff in Hin as ([q l] & Eq & Hin). cbn in Eq. subst q.
+      apply filter_In in Hin as [Hin Hb]. cbn [fst snd] in Hb.
+      assert (l = tc) as ->.
+      { apply Huniq. apply remove_peers_In in Hin as [Hin _]. apply remove_peers_In in Hin as [Hin _].
+        apply filter_In in Hin as [Hin _]. apply remove_peers_In in Hin as [Hin _]. done. }
+      destruct (msg_of p hs') as [m|] eqn:Em; [|done].
+      apply msg_of_In in Em. rewrite (proj2 Hh' m Em) in Hb. congruence. }
+    assert (Hp5 : In (p, tc) cps5).
+    { apply remove_peers_In. split; [done|]. cbn. by apply mem_false. }
+    assert (Hpall : ~ In p (bad0 ++ bans1 ++ silent ++ cpliars)).
     { rewrite !in_app_iff. tauto. }
-    destruct (check_sanity cps4 v) as [|d'|] eqn:Es4.
-    + destruct (choose hint cps4) as [[c lc]|] eqn:Ec.
-      2:{ intros [= <- <- <-]. split; [done|]. split; intros; discriminate. }
+    destruct (check_sanity cps5 v) as [|d'|] eqn:Es5.
+    + destruct (choose hint cps5) as [[c lc]|] eqn:Ec.
+      2:{ intros [= <- <-]. split; [done|]. split; intros; discriminate. }
       apply choose_In in Ec.
-      intros [= <- <- <-]. split; [done|]. split.
+      intros [= <- <-]. split; [done|]. split.
       * intros l [= <-]. cbn [snd]. intros i x y Hx Hy.
-        exact (check_sanity_all cps4 v Es4 c lc p tc i x y Ec Hp4 Hx Hy).
+        exact (check_sanity_all cps5 v Es5 c lc p tc i x y Ec Hp5 Hx Hy).
       * intros l _ q lq i x y Hq Hx Hy Hne. rewrite !in_app_iff.
         destruct (Hb0 q lq Hq) as [Hb|Hq1]; [by left|].
         destruct (zlen lq <? Z.of_nat j) eqn:El.
@@ -231,31 +269,32 @@ Proof.
         assert (Hq3 : In (q, lq) cps3).
         { apply remove_peers_In. done. }
         destruct (mem q silent) eqn:Ems.
-        { right. right. by apply mem_In. }
+        { right. right. left. by apply mem_In. }
         assert (Hq4 : In (q, lq) cps4).
         { apply remove_peers_In. done. }
-        exfalso. apply Hne. exact (check_sanity_all cps4 v Es4 q lq p tc i x y Hq4 Hp4 Hx Hy).
-    + intros [= <- <- <-]. split; [done|]. split; intros; discriminate.
-    + intros [= <- <- <-]. split; [done|]. split; intros; discriminate.
-  - intros [= <- <- <-]. split; [done|]. split; intros; discriminate.
+        destruct (mem q cpliars) eqn:Eml.
+        { right. right. right. by apply mem_In. }
+        assert (Hq5 : In (q, lq) cps5).
+        { apply remove_peers_In. done. }
+        exfalso. apply Hne. exact (check_sanity_all cps5 v Es5 q lq p tc i x y Hq5 Hp5 Hx Hy).
+    + intros [= <- <-]. split; [done|]. split; intros; discriminate.
+    + intros [= <- <-]. split; [done|]. split; intros; discriminate.
+  - intros [= <- <-]. split; [done|]. split; intros; discriminate.
 Qed.
 
-Theorem resolve_honest_wins hard v env raws hint cps p tc tfilt :
+Theorem resolve_honest_wins H hard v env raws hint cps p tc tfilt :
   In (p, tc) cps -> (forall l, In (p, l) cps -> l = tc) ->
   peer_hard_bad hard tc = false ->
   (forall q l, In (q, l) cps -> (length l <= length tc)%nat) ->
-  (forall startH, exists tm,
-      honest_in tm p (fst (get_headers v startH raws)) /\
-      forall i : nat, (i < zn (snd (get_headers v startH raws)))%nat ->
-                      good_idx env tfilt tm startH p (Z.of_nat i)) ->
-  let '(bans, res, flag) := resolve_conflict hard v env raws hint cps in
+  honest_serves H v env raws p tc tfilt ->
+  let '(bans, res) := resolve_conflict H hard v env raws hint cps in
   ~ In p bans /\
   (forall l, res = Some l -> forall (i : nat) x y, l !! i = Some x -> tc !! i = Some y -> x = y) /\
   (forall l, res = Some l -> forall q lq (i : nat) x y,
       In (q, lq) cps -> lq !! i = Some x -> tc !! i = Some y -> x <> y -> In q bans).
 Proof.
   intros Hp Huniq Hhard Hlen Hhon.
-  destruct (resolve_conflict hard v env raws hint cps) as [[bans res] flag] eqn:E.
+  destruct (resolve_conflict H hard v env raws hint cps) as [bans res] eqn:E.
   eapply resolve_honest_wins_eq; eauto.
 Qed.
 
